@@ -52,7 +52,7 @@ def run(chk):
         lit = "/%s/%s%s" % (regen.re_print(ast).replace("/", "\\x2f"), "i" if icase else "", "s" if dotall else "")
         subj = bytes(b for b in recheck.make_buffer(r, [sexp], r.choice([0, 1, 4, 12, 30]), regen.ALPHA + b"\n") if b != 0)
         src = "rule m { condition: ext_s matches %s }" % lit
-        meta.append((src, subj, regen.has_looped_nullable_rep(ast)))
+        meta.append((src, subj, regen.has_looped_nullable_rep(ast), regen.has_unbounded_nullable_rep(ast)))
         cases.append(("m%d" % i, ["newcompiler", "defs ext_s " + hx(b"x"), "add " + hx(src.encode()), "getrules", "scanner 0",
                                    "sdefs ext_s " + hx(subj), "scan " + hx(b"z")]))
         mq.append("rem %s %s" % (hx(subj), sexp))
@@ -63,7 +63,7 @@ def run(chk):
         mr = mres[i]
         lines = out.get("m%d" % i, [])
         sc = [l for l in lines if l.startswith("scan msgs=")]
-        src, subj, looped_nullable = meta[i]
+        src, subj, looped_nullable, unbounded_nullable = meta[i]
         replay = {"rule": src, "subject_hex": hx(subj), "model": mr, "impl": lines[-3:]}
         if any(l.startswith("crash") for l in lines):
             chk.violation("crash:matches", "matches operator crashes: %s" % lines[-2:], replay)
@@ -79,6 +79,9 @@ def run(chk):
         if impl != mr and mr == "1" and first == len(subj):
             chk.violation("matches-only-empty-at-end", "`%s` on %r: the expression matches only the empty string at the end of the operand; "
                           "implementation says no match" % (src[:160], subj), replay)
+        elif impl != mr and impl == "0" and unbounded_nullable:
+            chk.violation("star-of-nullable-group-exhausts-fibers", "`%s` on %r: implementation says no match, regex semantics says match (a group that can "
+                          "match the empty string under an unbounded quantifier: the fibers are exhausted and `matches` swallows the error)" % (src[:160], subj), replay)
         elif impl != mr and impl == "0" and looped_nullable:
             chk.violation("counted-repeat-of-nullable-group", "`%s` on %r: implementation says no match, regex semantics says match (a counted repeat "
                           "{n,..} with n >= 3 over a group that can match the empty string)" % (src[:160], subj), replay)
@@ -93,6 +96,14 @@ def run(chk):
     if len([l for l in pl if l.startswith("scan msgs=")]) < 2:
         chk.violation("quantified-zero-width-assertion", "scanning 'cy abc cycy xx' with /(\\B)*?cy/ does not terminate (killed after 4 s): %s" % pl[-2:],
                       {"rule": "rule h { strings: $a = /(\\B)*?cy/ condition: $a }", "buffer": "cy abc cycy xx", "output": pl[-3:]})
+    # probe of the known finding: a nullable group under an unbounded lazy quantifier exhausts the fibers and `matches` swallows the error
+    psrc = b'rule p { condition: ext_s matches /(.??)*?\\x2d/ }'
+    pout, _ = vlib.run_cases(hscan, [("pn", ["newcompiler", "defs ext_s " + hx(b"x"), "add " + hx(psrc), "getrules", "scanner 0", "sdefs ext_s " + hx(b"-Cxx"),
+                                             "scan " + hx(b"z")])], timeout=60, args=["20"])
+    pp = [l for l in pout.get("pn", []) if l.startswith("scan msgs=")]
+    if pp and "M:default:p" not in pp[0]:
+        chk.violation("star-of-nullable-group-exhausts-fibers", "'-Cxx' matches /(.??)*?\\x2d/ evaluates to false: %s" % pp[0][:160],
+                      {"rule": psrc.decode(), "subject": "-Cxx"})
     # probe of the known finding: counted repeat (n >= 4, or 3..m) of a group that can match the empty string
     pout, _ = vlib.run_cases(hscan, [("nrep", ["newcompiler", "add " + hx(b'rule n { strings: $a = /(x?){4}aa/ $b = /(x?){3}aa/ condition: any of them }'), "getrules",
                                                "scanner 0", "scan " + hx(b"aaa1")])], timeout=60, args=["10"])
